@@ -566,7 +566,17 @@ func (n *node) RouteLinkPID(pid gen.PID, target gen.PID) error {
 		if _, exist := n.processes.Load(target); exist == false {
 			return gen.ErrProcessUnknown
 		}
-		return n.targetManager.AddLink(pid, target)
+		if err := n.targetManager.AddLink(pid, target); err != nil {
+			return err
+		}
+		// the target could have gone while this relation was being created. if it
+		// is still in the table nobody has seen it and nobody will send a notification
+		if _, exist := n.processes.Load(target); exist == false {
+			if err := n.targetManager.RemoveLink(pid, target); err == nil {
+				return gen.ErrProcessUnknown
+			}
+		}
+		return nil
 	}
 
 	// remote target
@@ -626,7 +636,17 @@ func (n *node) RouteLinkProcessID(pid gen.PID, target gen.ProcessID) error {
 		if _, exist := n.names.Load(target.Name); exist == false {
 			return gen.ErrProcessUnknown
 		}
-		return n.targetManager.AddLink(pid, target)
+		if err := n.targetManager.AddLink(pid, target); err != nil {
+			return err
+		}
+		// the target could have gone while this relation was being created. if it
+		// is still in the table nobody has seen it and nobody will send a notification
+		if _, exist := n.names.Load(target.Name); exist == false {
+			if err := n.targetManager.RemoveLink(pid, target); err == nil {
+				return gen.ErrProcessUnknown
+			}
+		}
+		return nil
 	}
 
 	// remote target
@@ -683,7 +703,17 @@ func (n *node) RouteLinkAlias(pid gen.PID, target gen.Alias) error {
 		if _, exist := n.aliases.Load(target); exist == false {
 			return gen.ErrAliasUnknown
 		}
-		return n.targetManager.AddLink(pid, target)
+		if err := n.targetManager.AddLink(pid, target); err != nil {
+			return err
+		}
+		// the target could have gone while this relation was being created. if it
+		// is still in the table nobody has seen it and nobody will send a notification
+		if _, exist := n.aliases.Load(target); exist == false {
+			if err := n.targetManager.RemoveLink(pid, target); err == nil {
+				return gen.ErrAliasUnknown
+			}
+		}
+		return nil
 	}
 
 	// remote target
@@ -750,6 +780,13 @@ func (n *node) RouteLinkEvent(pid gen.PID, target gen.Event) ([]gen.MessageEvent
 		event := value.(*eventOwner)
 		if err := n.targetManager.AddLink(pid, target); err != nil {
 			return nil, err
+		}
+		// the event could have been unregistered while this relation was being created.
+		// if it is still in the table nobody has seen it and nobody will send a notification
+		if _, exist := n.events.Load(target); exist == false {
+			if err := n.targetManager.RemoveLink(pid, target); err == nil {
+				return nil, gen.ErrEventUnknown
+			}
 		}
 
 		if event.last != nil {
@@ -865,7 +902,17 @@ func (n *node) RouteMonitorPID(pid gen.PID, target gen.PID) error {
 				return gen.ErrProcessTerminated
 			}
 		}
-		return n.targetManager.AddMonitor(pid, target)
+		if err := n.targetManager.AddMonitor(pid, target); err != nil {
+			return err
+		}
+		// the target could have gone while this relation was being created. if it
+		// is still in the table nobody has seen it and nobody will send a notification
+		if _, exist := n.processes.Load(target); exist == false {
+			if err := n.targetManager.RemoveMonitor(pid, target); err == nil {
+				return gen.ErrProcessUnknown
+			}
+		}
+		return nil
 	}
 
 	// remote target
@@ -928,7 +975,17 @@ func (n *node) RouteMonitorProcessID(pid gen.PID, target gen.ProcessID) error {
 				return gen.ErrProcessTerminated
 			}
 		}
-		return n.targetManager.AddMonitor(pid, target)
+		if err := n.targetManager.AddMonitor(pid, target); err != nil {
+			return err
+		}
+		// the target could have gone while this relation was being created. if it
+		// is still in the table nobody has seen it and nobody will send a notification
+		if _, exist := n.names.Load(target.Name); exist == false {
+			if err := n.targetManager.RemoveMonitor(pid, target); err == nil {
+				return gen.ErrProcessUnknown
+			}
+		}
+		return nil
 	}
 
 	// remote target
@@ -987,7 +1044,17 @@ func (n *node) RouteMonitorAlias(pid gen.PID, target gen.Alias) error {
 		if _, exist := n.aliases.Load(target); exist == false {
 			return gen.ErrAliasUnknown
 		}
-		return n.targetManager.AddMonitor(pid, target)
+		if err := n.targetManager.AddMonitor(pid, target); err != nil {
+			return err
+		}
+		// the target could have gone while this relation was being created. if it
+		// is still in the table nobody has seen it and nobody will send a notification
+		if _, exist := n.aliases.Load(target); exist == false {
+			if err := n.targetManager.RemoveMonitor(pid, target); err == nil {
+				return gen.ErrAliasUnknown
+			}
+		}
+		return nil
 	}
 
 	// remote target
@@ -1053,6 +1120,13 @@ func (n *node) RouteMonitorEvent(pid gen.PID, target gen.Event) ([]gen.MessageEv
 		event := value.(*eventOwner)
 		if err := n.targetManager.AddMonitor(pid, target); err != nil {
 			return nil, err
+		}
+		// the event could have been unregistered while this relation was being created.
+		// if it is still in the table nobody has seen it and nobody will send a notification
+		if _, exist := n.events.Load(target); exist == false {
+			if err := n.targetManager.RemoveMonitor(pid, target); err == nil {
+				return nil, gen.ErrEventUnknown
+			}
 		}
 
 		if event.last != nil {
